@@ -648,10 +648,13 @@ func (d *BasicDirectory) computeEstimatedSizeAndTotalLinks() {
 
 	mode := d.GetSizeEstimationMode()
 	if mode == SizeEstimationBlock && d.node != nil {
-		// Compute data field size from stored metadata (no serialization needed).
-		// The mode and mtime fields are extracted in NewBasicDirectoryFromNode
-		// or set via WithStat option during creation.
-		d.estimatedSize = dataFieldSerializedSize(d.mode, d.mtime)
+		// Size of the node's Data field as stored (no serialization needed):
+		// tag(1) + len_varint + bytes. The mode/mtime kept in the directory are
+		// not used here: a node loaded from disk may carry a mode field without
+		// permission bits, which FSNode.Mode() reports as 0.
+		if data := d.node.Data(); data != nil {
+			d.estimatedSize = 1 + varintLen(uint64(len(data))) + len(data)
+		}
 
 		// Add link sizes using linkSerializedSize function
 		for _, l := range d.node.Links() {
